@@ -470,3 +470,131 @@ func (c *Ctx) callsTransitively(in ssa.Instruction, name string, depth int) bool
 	})
 	return found
 }
+
+// ---- success values across helpers
+
+// succeedsOnlyIf: callee returns a nil error only on paths on which `inner` (a call inside callee that has an error
+// result) returned a nil error: every return is on inner's err==nil edge or returns a provably non-nil error.
+func (c *Ctx) succeedsOnlyIf(callee *ssa.Function, inner ssa.Value) bool {
+	n := 0
+	for _, b := range callee.Blocks {
+		if len(b.Instrs) == 0 {
+			continue
+		}
+		ret, ok := b.Instrs[len(b.Instrs)-1].(*ssa.Return)
+		if !ok {
+			continue
+		}
+		n++
+		if guardedBy(ret, false, errTestOf(inner)) != nil {
+			continue
+		}
+		rs := retResults(ret)
+		if len(rs) == 0 {
+			return false
+		}
+		if ok, _ := c.errorProvablyNonNil(callee, ret, rs[len(rs)-1]); !ok {
+			return false
+		}
+	}
+	return n > 0
+}
+
+// successValueOf: at `site`, v is the first result of a call satisfying isSrc that returned a nil error — directly
+// (site is on the err==nil edge of that call), through helpers that return it together with a nil error only then, or
+// through the parameters of helpers at every one of their call sites (must-analysis; depth-bounded).
+func (c *Ctx) successValueOf(v ssa.Value, site ssa.Instruction, isSrc func(*ssa.Call) bool, d int) bool {
+	if d > 5 || v == nil {
+		return false
+	}
+	switch x := v.(type) {
+	case *ssa.ChangeInterface:
+		return c.successValueOf(x.X, site, isSrc, d)
+	case *ssa.Extract:
+		call, ok := x.Tuple.(*ssa.Call)
+		if !ok || x.Index != 0 {
+			return false
+		}
+		if guardedBy(site, false, errTestOf(call)) == nil {
+			return false
+		}
+		if isSrc(call) {
+			return true
+		}
+		callee := call.Common().StaticCallee()
+		if callee == nil || len(callee.Blocks) == 0 || !isRepoFn(callee) {
+			return false
+		}
+		n := 0
+		for _, b := range callee.Blocks {
+			if len(b.Instrs) == 0 {
+				continue
+			}
+			ret, ok := b.Instrs[len(b.Instrs)-1].(*ssa.Return)
+			if !ok {
+				continue
+			}
+			n++
+			rs := retResults(ret)
+			if len(rs) < 2 {
+				return false
+			}
+			if ok, _ := c.errorProvablyNonNil(callee, ret, rs[len(rs)-1]); ok {
+				continue
+			}
+			if !c.successValueOf(rs[0], ret, isSrc, d+1) {
+				return false
+			}
+		}
+		return n > 0
+	case *ssa.Parameter:
+		if arg, ok := paramBinding[x]; ok {
+			if at := ownerSite[x.Parent()]; at != nil {
+				return c.successValueOf(arg, at, isSrc, d+1)
+			}
+			return false
+		}
+		args := paramSites[x]
+		if len(args) == 0 {
+			return false
+		}
+		for i, arg := range args {
+			if !c.successValueOf(arg, paramSiteInstrs[x][i], isSrc, d+1) {
+				return false
+			}
+		}
+		return true
+	}
+	return false
+}
+
+// boolResultImplies: the (single, bool) result of the statically called repo function is true only on paths guarded by
+// pred: every return whose result is not the constant false is on the true edge of a branch satisfying pred.
+func boolResultImplies(call *ssa.Call, pred func(ssa.Value) bool) bool {
+	callee := call.Common().StaticCallee()
+	if callee == nil || len(callee.Blocks) == 0 {
+		return false
+	}
+	n := 0
+	for _, b := range callee.Blocks {
+		if len(b.Instrs) == 0 {
+			continue
+		}
+		ret, ok := b.Instrs[len(b.Instrs)-1].(*ssa.Return)
+		if !ok {
+			continue
+		}
+		n++
+		rs := retResults(ret)
+		if len(rs) != 1 {
+			return false
+		}
+		if k, ok := rs[0].(*ssa.Const); ok && k.Value != nil && k.Value.String() == "false" {
+			continue
+		}
+		if guardedByLocal(ret, true, pred, 0) == nil {
+			return false
+		}
+	}
+	return n > 0
+}
